@@ -279,7 +279,8 @@ def validate_pairs(chk: Check, traces, site, report=True, shards=6):
         if site != "canary":
             need = [f"{c}|eval|adapt=False|resize={r}" for c in CLASSES for r in ("none", "grow", "shrink")]
             need += [f"{c}|{m}|adapt={a}|resize=none" for c in ADAPTIVE
-                     for m, a in (("eval", "None"), ("train", "False"), ("coupled-same", "True"), ("coupled-same", "None"))]
+                     for m, a in (("eval", "None"), ("train", "False"), ("coupled-same", "True"), ("coupled-same", "None"),
+                                  ("coupled-sum", "True"))]
             need += ["layer:RecurrentSerial:delayed", "connection:LinearLateral:delayed"]
             have = set(var)
             for t in traces:
